@@ -2119,7 +2119,16 @@ func (t *treasure) IsDifferentFrom(guardID guard.ID, otherTreasure Treasure) boo
 // Save saves the treasure to the Swamp
 func (t *treasure) Save(guardID guard.ID) TreasureStatus {
 	_ = t.Guard.CanExecute(guardID)
-	return t.saveMethod(t, guardID)
+	status := t.saveMethod(t, guardID)
+	// the change flags describe the difference to the last saved state: once the
+	// save has been classified they must not leak into the next Save, otherwise an
+	// identical re-Set is reported (and broadcast) as a modification forever.
+	t.mu.Lock()
+	t.expirationTimeChanged, t.contentChanged, t.contentTypeChanged = false, false, false
+	t.createdAtChanged, t.createdByChanged = false, false
+	t.modifiedAtChanged, t.modifiedByChanged = false, false
+	t.mu.Unlock()
+	return status
 }
 
 func (t *treasure) IsContentChanged() bool {
